@@ -97,6 +97,19 @@ impl Service<http::Request<Body>> for Capture {
 #[derive(Clone)]
 pub struct Handler { pub script: Arc<Value>, pub log: Rec }
 type BoxStream = Pin<Box<dyn tokio_stream::Stream<Item = Result<Vec<u8>, Status>> + Send>>;
+/// The caller's request stream: not fused either (polled after its end it produces a message nobody sent), Pending once
+/// before the positions in `pend_before`.
+struct StrictReq { items: std::collections::VecDeque<Vec<u8>>, ended: bool, complained: bool, pend_before: Vec<usize>, k: usize, pended: bool }
+impl StrictReq { fn new(msgs: &[Vec<u8>], pend_before: Vec<usize>) -> Self { StrictReq { items: msgs.iter().cloned().collect(), ended: false, complained: false, pend_before, k: 0, pended: false } } }
+impl tokio_stream::Stream for StrictReq {
+    type Item = Vec<u8>;
+    fn poll_next(mut self: Pin<&mut Self>, cx: &mut Context<'_>) -> Poll<Option<Vec<u8>>> {
+        if self.ended { if self.complained { return Poll::Ready(None); } self.complained = true; return Poll::Ready(Some(b"request stream polled after it had ended".to_vec())); }
+        if !self.pended && self.pend_before.contains(&self.k) { self.pended = true; cx.waker().wake_by_ref(); return Poll::Pending; }
+        self.pended = false; self.k += 1;
+        match self.items.pop_front() { Some(x) => Poll::Ready(Some(x)), None => { self.ended = true; Poll::Ready(None) } }
+    }
+}
 /// The handler's response stream: every item ready at once, and NOT fused - if it is polled again after it has ended it says so
 /// with an error item (a stream is allowed to do anything then), so that such a poll becomes visible to the caller.
 struct StrictStream { items: std::collections::VecDeque<Result<Vec<u8>, Status>>, ended: bool, complained: bool, pend_before: Vec<usize>, k: usize, pended: bool }
@@ -225,13 +238,14 @@ where
     let tmo = c["timeout_ms"].as_u64();
     macro_rules! mkreq { ($payload:expr) => {{ let mut r = Request::new($payload); *r.metadata_mut() = meta.clone(); if let Some(t) = tmo { r.set_timeout(std::time::Duration::from_millis(t)); } r }}; }
     let shape = stim["shape"].as_str().unwrap_or("unary");
+    let req_pend: Vec<usize> = stim["req"]["pend"].as_array().map(|a| a.iter().filter_map(|x| x.as_u64()).map(|x| x as usize).collect()).unwrap_or_default();
     let t0 = tokio::time::Instant::now();
     let log_t = log.clone();
     let _timing = Defer(Some(move || log_t.ev(json!({"e":"timing","elapsed_ms": t0.elapsed().as_millis() as u64}))));
     match shape {
         "unary" | "cstream" => {
             let r = if shape == "unary" { cl.unary(mkreq!(msgs.first().cloned().unwrap_or_default())).await }
-                    else { cl.cstream(mkreq!(tokio_stream::iter(msgs.clone()))).await };
+                    else { cl.cstream(mkreq!(StrictReq::new(&msgs, req_pend.clone()))).await };
             match r {
                 Ok(resp) => { let (md, m, _) = resp.into_parts(); client_result_events(log, "single", Some(&md), &[m], Ok(None)); }
                 Err(s) => client_result_events(log, "single", None, &[], Err(s)),
@@ -239,7 +253,7 @@ where
         }
         _ => {
             let r = if shape == "sstream" { cl.sstream(mkreq!(msgs.first().cloned().unwrap_or_default())).await }
-                    else { cl.bidi(mkreq!(tokio_stream::iter(msgs.clone()))).await };
+                    else { cl.bidi(mkreq!(StrictReq::new(&msgs, req_pend.clone()))).await };
             match r {
                 Err(s) => client_result_events(log, "stream", None, &[], Err(s)),
                 Ok(resp) => {
@@ -446,7 +460,7 @@ pub fn gen(seed: u64, tier: &str) -> Vec<Value> {
         out.push(json!({"mode":"client","class": if h2 {"h2"} else {"inproc"},"transport": if h2 {"h2"} else {"inproc"},"shim":shim,"shape":shape,
             "server":{"send":s_send,"accept":s_acc,"max_dec":-1,"max_enc":-1},
             "client":{"send":c_send,"accept":c_acc,"max_dec":-1,"max_enc":-1,"clone":rng.gen_bool(0.3)},
-            "req":{"meta":crate::labs::status::rand_meta(&mut rng),"msgs":req_msgs},
+            "req":{"meta":crate::labs::status::rand_meta(&mut rng),"msgs":req_msgs,"pend":(0..=nreq + 1).filter(|_| rng.gen_bool(0.25)).collect::<Vec<usize>>()},
             "script":rand_script(&mut rng, shape)}));
     }
     out
